@@ -591,6 +591,29 @@ static void p6_run(uint64_t idx, vh_rng_t * rng) {
     vh_ctx_free(v);
 }
 
+/* ---- phase 7: large REAL payloads (a waveform record): one write of more than 64 KiB and of more than 128 KiB of data, as a whole block,
+ * as one data call behind a header, and as arrays in both byte orders ---------------------------------------------------------------------- */
+static const size_t p7_bytes[] = { 65535, 65536, 131070, 131071, 131072, 200000, 262144, 400000, 1000000 };
+static uint64_t p7_count(int thorough) { return (uint64_t) (sizeof p7_bytes / sizeof p7_bytes[0]) * (thorough ? 8 : 4); }
+static void p7_run(uint64_t idx, vh_rng_t * rng) {
+    size_t nb = p7_bytes[idx % (sizeof p7_bytes / sizeof p7_bytes[0])], i; int shape = (int) (idx / (sizeof p7_bytes / sizeof p7_bytes[0])) % 8;
+    vh_ctx_t * v = new_ctx(); unsigned char * d;
+    vh_case_desc("payload of %zu bytes, shape %d", nb, shape);
+    s_begin();
+    switch (shape) {
+        case 0: d = (unsigned char *) malloc(nb); for (i = 0; i < nb; i++) d[i] = (unsigned char) (i * 31 + (i >> 8) * 7 + (i >> 16)); s_block(d, nb); s_int(7); run_script(v); free(d); break;
+        case 1: d = (unsigned char *) malloc(nb); for (i = 0; i < nb; i++) d[i] = (unsigned char) (i * 13 + (i >> 9)); s_int(5); s_header(nb); s_data(d, nb, 0); run_script(v); free(d); break;
+        case 2: s_array(T_U8, SCPI_FORMAT_NORMAL, nb, rng); s_int(7); run_script(v); break;
+        case 3: s_array(T_I16, SCPI_FORMAT_SWAPPED, nb / 2, rng); run_script(v); break;
+        case 4: s_array(T_I16, SCPI_FORMAT_NORMAL, nb / 2, rng); run_script(v); break;
+        case 5: s_array(T_F64, SCPI_FORMAT_SWAPPED, nb / 8, rng); s_int(-1); run_script(v); break;
+        case 6: s_array(T_U32, SCPI_FORMAT_NORMAL, nb / 4, rng); run_script(v); break;
+        default: s_array(T_I8, SCPI_FORMAT_SWAPPED, nb, rng); run_script(v); break;
+    }
+    vh_count(nb > 131070 ? "payload.more_than_131070_bytes_in_one_call" : "payload.64KiB_to_128KiB_in_one_call", 1);
+    vh_ctx_free(v);
+}
+
 int main(int argc, char ** argv) {
     vh_decoy_enable(5); vh_require("decoy.messages_run_on_a_second_context"); vh_require("array.window_at_element_offset");
     static const vh_phase_t phases[] = {
@@ -601,9 +624,10 @@ int main(int argc, char ** argv) {
         { "stream_random", p4_count, p4_run },
         { "header_only", p5_count, p5_run },
         { "ascii_smoke", p6_count, p6_run },
+        { "large_payloads", p7_count, p7_run },
     };
     int rc;
-    vh_require("array.native_order");
+    vh_require("array.native_order"); vh_require("payload.more_than_131070_bytes_in_one_call");
     vh_require("array.swapped_order");
     vh_require("array.empty.multibyte_nonnative_order");
     vh_require("array.empty.NORMAL");
@@ -626,7 +650,7 @@ int main(int argc, char ** argv) {
     vh_require("incomplete.next_item_not_delimited");
     vh_require("header_only.power_of_ten");
     vh_require("header_only.length_digits.9");
-    rc = vh_main(argc, argv, "C17", phases, 7);
+    rc = vh_main(argc, argv, "C17", phases, 8);
     s_begin(); vh_buf_free(&g_exp);
     return rc;
 }
